@@ -143,6 +143,57 @@ def rule_p2(ctx, F):
                 {"site": fn.loc(v.pt), "path": s.render_path(v.path)[-6:]})
 
 
+def emptying_points(F, fn, recv_sub, depth=0, seen=()):
+    """Points of fn that leave the Vec denoted by `recv_sub` empty: Vec::clear, truncate(0), or a
+    call of a local helper that empties its corresponding parameter on every path to its return."""
+    pts = []
+    for pt, e in fn.points():
+        for n in own_walk(e):
+            if n.get("k") != "call" or not n.get("a"):
+                continue
+            name = n.get("fn") or ""
+            for i, a in enumerate(n["a"]):
+                if recv_sub not in inline_text(fn, a):
+                    continue
+                if i == 0 and name.endswith("::clear") and "Vec" in name:
+                    pts.append(pt)
+                elif i == 0 and name.endswith("::truncate") and "Vec" in name and strip(n["a"][1]).get("v") == 0:
+                    pts.append(pt)
+                else:
+                    h = next((f for f in F.fn_list if f.name == name), None)
+                    if h is not None and depth < 3 and h.name not in seen and i < len(h.params):
+                        inner = emptying_points(F, h, h.params[i]["name"], depth + 1, seen + (fn.name,))
+                        if inner and Search(h, BeforeMonitor((), inner, check_exit=True)).run(False) is None:
+                            pts.append(pt)
+    return pts
+
+
+def rule_p3(ctx, F):
+    """HtmlRenderer::reset leaves every accumulating buffer empty (a reused renderer must not start
+    the next document behind the previous one's HTML or line offsets)."""
+    fn = find_fn(ctx, F, "HtmlRenderer::reset", "P3")
+    if not fn:
+        return
+    # the buffers render() grows: Vec fields of HtmlRenderer that some method pushes to / extends
+    grown = set()
+    for f in F.fn_list:
+        if "HtmlRenderer" not in f.name:
+            continue
+        for pt, e in f.points():
+            for n in own_walk(e):
+                if n.get("k") == "call" and n.get("a") and "Vec" in (n.get("fn") or "") and (n["fn"].endswith("::push") or "extend" in n["fn"]):
+                    t = inline_text(f, n["a"][0])
+                    for fld in ("html", "line_offsets"):
+                        if t.endswith("." + fld):
+                            grown.add(fld)
+                    if ".html" not in t and ".line_offsets" not in t and "self" in t and "highlights" not in t:
+                        grown.add(t.split(".")[-1])
+    ctx.floor("accumulating buffers of HtmlRenderer", len(grown), 2)
+    for fld in sorted(grown):
+        pts = emptying_points(F, fn, "." + fld)
+        ctx.on_all_paths("P3", "HtmlRenderer::reset:empties-" + fld, fn, pts, "reset() empties `%s` (clear / truncate(0), directly or through a helper that does so on all of its paths)" % fld)
+
+
 def run(ctx):
     ctx.config = "rust"
     F = ctx.extract.rsfacts(CRATE)
@@ -150,6 +201,7 @@ def run(ctx):
     rule_p1(ctx, F)
     rule_g1(ctx, F)
     rule_p2(ctx, F)
+    rule_p3(ctx, F)
     return ctx.finish(
         "Pairing, who-may-construct and gate rules over rustc MIR of tree-sitter-highlight: HighlightStart↔push and HighlightEnd↔pop of the end stack in both directions and nowhere else; "
         "Source spans only from emit_event (advancing byte_offset) and the tail; None only after the tail; raw bytes reach the HTML only unescaped-safe, never CR; final newline. "
